@@ -76,6 +76,9 @@ class World(EventDispatcher):
 
         if entity_id is None:
             entity_id = next(self.id_generator)
+            # Skip identifiers already in use (eg. imposed by the user)
+            while entity_id in self._entities:
+                entity_id = next(self.id_generator)
 
         # Code duplication for performance, see add_component
         for component in components:
